@@ -570,3 +570,377 @@ Proof.
     + apply empty_prefix_ok. unfold bfilter. apply filter_nil. intros e HI.
       destruct (Hbelow e HI) as [HE _]. apply N.eqb_neq. pose proof (Lb e HE). unfold b0 in *. lia.
 Qed.
+
+(* ---------- the entries stage in the batched format ---------- *)
+
+Lemma contig_last_index : forall l i d, contig i l -> l <> [] -> e_index (last l d) = i + nlen l - 1.
+Proof.
+  induction l as [|e l IH]; intros i d HC Hn; [contradiction|].
+  destruct HC as [HC1 HC2]. rewrite nlen_cons. destruct l as [|e1 l'].
+  - cbn [last]. unfold nlen; cbn [length]. lia.
+  - rewrite last_cons2. rewrite (IH (i + 1) d HC2) by discriminate. rewrite nlen_cons. lia.
+Qed.
+
+Lemma n_last_term_ge : forall nd e0 es,
+  contig (n_marker nd + 1) (n_ents nd) ->
+  upd_ents_wf nd (e0 :: es) = true -> n_last_term nd <= e_term e0.
+Proof.
+  intros nd e0 es HC Hwf. cbn [upd_ents_wf] in Hwf. rewrite !andb_true_iff in Hwf.
+  destruct Hwf as (((W1 & W2) & W3) & W4). apply N.ltb_lt in W1. apply N.leb_le in W2.
+  cbn [ents_okb] in W4. rewrite !andb_true_iff in W4. destruct W4 as ((((_ & P) & _) & _) & _).
+  apply N.leb_le in P.
+  destruct (e_index e0 <=? n_last nd) eqn:E; [lia|]. apply N.leb_gt in E.
+  assert (e_index e0 = n_last nd + 1) as Hi by lia. unfold n_last_term.
+  destruct (n_ents nd) as [|x l] eqn:EN.
+  - cbn [last_term]. unfold n_last in Hi. rewrite EN in Hi. unfold nlen in Hi. cbn [length] in Hi.
+    assert (e_index e0 =? n_marker nd + 1 = true) as X by (apply N.eqb_eq; lia). rewrite X in P. lia.
+  - destruct (last_term_in (x :: l) (n_mterm nd) ltac:(discriminate)) as (y & Y1 & Y2 & Y3).
+    rewrite Y2. rewrite <- EN in *.
+    assert (e_index y = n_last nd) as Hy.
+    { rewrite Y3. rewrite (contig_last_index _ _ y HC) by (rewrite EN; discriminate).
+      unfold n_last. assert (0 < nlen (n_ents nd)) by (rewrite EN, nlen_cons; lia). lia. }
+    assert (e_index e0 =? n_marker nd + 1 = false) as X.
+    { apply N.eqb_neq. unfold n_last in Hi. assert (0 < nlen (n_ents nd)) by (rewrite EN, nlen_cons; lia). lia. }
+    rewrite X in P. replace (e_index e0 - 1) with (e_index y) in P by lia.
+    rewrite (term_at_in _ _ _ HC Y1) in P. lia.
+Qed.
+
+Lemma strip_rn_entries : forall g cn nd n nd',
+  RnG g cn (strip nd) n -> n_st nd' = n_st nd -> n_ss nd' = n_ss nd ->
+  n_last nd' = n_last nd -> RnG g cn (strip nd') n.
+Proof.
+  intros g cn nd n nd' H S1 S2 S3. pose proof (n_last_strip nd) as L1. pose proof (n_last_strip nd') as L2.
+  destruct H as [G1 G2 G3 G4 G5 G6 G7 G8 G9 G10 G11]. constructor; unfold strip in *; cbn [n_marker n_ents n_st n_ss n_mterm] in *;
+    rewrite ?S1, ?S2 in *; auto.
+  - rewrite L2, S3, <- L1. exact G3.
+  - intros v Hv. rewrite L2, S3, <- L1. auto.
+  - rewrite L2, S3, <- L1. exact G11.
+Qed.
+
+Lemma in_log_range : forall nd x, in_log nd x = true <-> n_marker nd < e_index x <= n_last nd.
+Proof. intros. unfold in_log. rewrite andb_true_iff, N.ltb_lt, N.leb_le. tauto. Qed.
+
+Lemma bfilter_in : forall b es x, In x (bfilter b es) <-> In x es /\ batch_id (e_index x) = b.
+Proof. intros. unfold bfilter. rewrite filter_In, N.eqb_eq. tauto. Qed.
+
+Lemma bfilter_nil_iff : forall b es, (forall x, In x es -> batch_id (e_index x) <> b) -> bfilter b es = [].
+Proof. intros b es H. unfold bfilter. apply filter_nil. intros x HI. apply N.eqb_neq. auto. Qed.
+
+Lemma bfilter_first_groups : forall g1 t b0, g1 <> [] -> uniform_id g1 b0 -> inc_groups b0 t ->
+  bfilter b0 (concat (g1 :: t)) = g1 /\
+  (forall gk, In gk t -> bfilter (gid gk) (concat (g1 :: t)) = gk /\ b0 < gid gk) /\
+  (forall b, b <> b0 -> (forall gk, In gk t -> gid gk <> b) -> bfilter b (concat (g1 :: t)) = []).
+Proof.
+  intros g1 t b0 Hn HU HT. destruct (bfilter_groups t b0 HT) as [I1 I2]. cbn [concat].
+  split; [|split].
+  - rewrite bfilter_app, I2.
+    + rewrite app_nil_r. unfold bfilter. apply filter_all. intros x HX. apply N.eqb_eq. now apply HU.
+    + intros gk HI X. pose proof (inc_groups_gid_gt _ _ _ HT HI). lia.
+  - intros gk HI. pose proof (inc_groups_gid_gt _ _ _ HT HI) as L. split; [|exact L].
+    rewrite bfilter_app, (I1 gk HI). rewrite bfilter_nil_iff; [reflexivity|].
+    intros x HX. rewrite (HU x HX). lia.
+  - intros b Hb Ht. rewrite bfilter_app, I2 by auto. rewrite app_nil_r.
+    apply bfilter_nil_iff. intros x HX. rewrite (HU x HX). auto.
+Qed.
+
+Lemma good_from_in_term : forall l pi pt x, good_from pi pt l -> In x l -> pt <= e_term x.
+Proof. intros. destruct (good_from_in _ _ _ _ H H0). auto. Qed.
+
+Lemma below_app_last_term : forall nd es e0 es0, es = e0 :: es0 -> good_from (e_index e0 - 1) (n_last_term nd) es ->
+  n_last_term (mkNode (n_marker nd) (n_mterm nd) (below (e_index e0) (n_ents nd) ++ es) (n_st nd) (n_ss nd))
+  = last_term (e_term e0) es0 /\ n_last_term nd <= last_term (e_term e0) es0 /\
+  e_term e0 <= last_term (e_term e0) es0 /\
+  (forall x, In x es -> e_term x <= last_term (e_term e0) es0).
+Proof.
+  intros nd es e0 es0 -> (A & B & C). unfold n_last_term at 1. cbn [n_mterm n_ents].
+  rewrite last_term_app. cbn [last_term]. destruct (good_le_last_term _ _ _ C) as [I1 I2].
+  split; [reflexivity|]. split; [lia|]. split; [lia|]. intros x [<-|HI]; [lia | auto].
+Qed.
+
+Lemma stage_ents_b : forall m g c nd n u, sorted m ->
+  (forall b, g (KBatch n b) = kv_get m (KBatch n b)) ->
+  RnG g (c n) (strip nd) n -> BC g (c_batch (c n)) nd n ->
+  contig (n_marker nd + 1) (n_ents nd) -> u_node u = n ->
+  upd_ents_wf nd (u_ents u) = true ->
+  exists c' w, b_save_tail m c u = Some (c', w) /\
+    RnG (gapply w g) (c' n) (strip (upd_ents_step nd (u_ents u))) n /\
+    BC (gapply w g) (c_batch (c' n)) (upd_ents_step nd (u_ents u)) n /\
+    contig (n_marker nd + 1) (n_ents (upd_ents_step nd (u_ents u))) /\
+    (forall n', n' <> n -> c' n' = c n') /\ wb_in_node w n /\ wb_wt w.
+Proof.
+  intros m g c nd n u HS Hg H HB HC Hn Hwf. unfold b_save_tail, upd_ents_step. rewrite Hn.
+  destruct (u_ents u) as [|e0 es0] eqn:EU.
+  { exists c, []. split; [reflexivity|]. split; [exact H|]. split; [exact HB|]. split; [exact HC|].
+    split; [auto|]. split; [intros x HI; destruct HI | intros k v HI; destruct HI]. }
+  pose proof (n_last_term_ge nd e0 es0 HC Hwf) as KF.
+  cbn [upd_ents_wf] in Hwf. set (es := e0 :: es0) in *.
+  rewrite !andb_true_iff in Hwf. destruct Hwf as (((W1 & W2) & W3) & W4).
+  apply N.ltb_lt in W1, W3. apply N.leb_le in W2.
+  set (i0 := e_index e0) in *.
+  pose proof (ents_okb_contig _ _ _ W4) as HCe.
+  pose proof (ents_okb_good _ _ _ (i0 - 1) W4 ltac:(lia)) as HGe0.
+  assert (HGe : good_from (i0 - 1) (n_last_term nd) es) by (eapply good_retarget; eauto).
+  assert (Ht1 : 1 <= e_term e0).
+  { unfold es in W4. cbn [ents_okb] in W4. rewrite !andb_true_iff in W4. destruct W4 as ((((_ & P) & _) & _) & _).
+    apply N.leb_le in P. lia. }
+  assert (es <> []) as Hne by (subst es; discriminate).
+  set (mi := i0 + nlen es - 1).
+  assert (Hmi : max_entry_index 0 es = mi) by (apply max_entry_index_contig; auto; lia).
+  assert (Hmi0 : i0 <= mi) by (subst mi es; rewrite nlen_cons; lia).
+  assert (Hmib : mi < max_index) by (subst mi; lia).
+  assert (Hes : forall x, In x es -> i0 <= e_index x <= mi).
+  { intros x HI. pose proof (contig_bounds _ _ _ HCe HI). subst mi. lia. }
+  destruct (below_app_last_term nd es e0 es0 eq_refl HGe) as (LT1 & LT2 & LT4 & LT3).
+  assert (HG1 : good_from 0 1 es).
+  { eapply good_from_weaken; [eapply good_retarget; [exact HGe | exact Ht1] | lia | lia]. }
+  set (nd' := mkNode (n_marker nd) (n_mterm nd) (below i0 (n_ents nd) ++ es) (n_st nd) (n_ss nd)) in *.
+  destruct (contig_below _ _ i0 HC ltac:(lia) ltac:(unfold n_last in *; lia)) as [CB CL].
+  assert (Hlast' : n_last nd' = mi).
+  { unfold n_last, nd'. cbn [n_marker n_ents]. rewrite nlen_app, CL. subst mi. lia. }
+  assert (Hbelow : forall e, In e (below i0 (n_ents nd)) -> In e (n_ents nd) /\ e_index e < i0).
+  { intros e HI. unfold below in HI. apply filter_In in HI. destruct HI as [A B]. apply N.ltb_lt in B. auto. }
+  (* the groups *)
+  destruct (split_contig e0 es0 HCe) as (g1 & t & ES & G1n & G1u & GT & GC). fold es in ES, GC. fold i0 in G1u, GT.
+  set (b0 := batch_id i0) in *.
+  pose proof (hd_concat _ _ _ _ GC G1n) as Hhd.
+  destruct (bfilter_first_groups g1 t b0 G1n G1u GT) as (BF1 & BFt & BFn). rewrite GC in BF1, BFt, BFn.
+  assert (Hg1 : forall x, In x g1 -> In x es) by (intros x HI; rewrite <- BF1 in HI; apply bfilter_in in HI; tauto).
+  assert (Hgk : forall gk x, In gk t -> In x gk -> In x es).
+  { intros gk x HI HX. destruct (BFt gk HI) as [E _]. rewrite <- E in HX. apply bfilter_in in HX. tauto. }
+  (* the merged first batch *)
+  destruct (merged_first_spec m g (c n) nd n g1 e0 Hg HB G1n Hhd G1u ltac:(fold i0; lia)) as (P & EM & PG & PX & PF).
+  fold i0 in PX, PF. fold b0 in PX, PF.
+  set (meb := P ++ g1).
+  set (lastid := batch_id (e_index (last es e0))).
+  assert (Hlastid : lastid = batch_id mi).
+  { unfold lastid. rewrite (contig_last_index _ _ e0 HCe Hne). reflexivity. }
+  set (cn1 := if lastid =? b0 then mkC (c_state (c n)) (c_max (c n)) (c_snap (c n)) (Some meb) else c n).
+  destruct (record_tail m n b0 lastid t b0 cn1 GT ltac:(lia)) as (cn' & ET & S1 & S2 & S3 & S4 & S5).
+  assert (Sc : c_state cn' = c_state (c n) /\ c_snap cn' = c_snap (c n)).
+  { unfold cn1 in S1, S3. destruct (lastid =? b0); cbn in S1, S3; auto. }
+  set (put0 := WPut (KBatch n b0) (VBatch (compact_if_many meb))).
+  set (wrec := put0 :: map (bput n) t).
+  assert (EREC : b_record m c n es = Some (cupd c n cn', wrec, mi)).
+  { unfold b_record. unfold es at 1. fold es. fold i0. fold b0. fold lastid. rewrite ES.
+    destruct g1 as [|x g1']; [contradiction|]. cbn [hd] in Hhd. subst x.
+    cbn [record_groups]. fold i0. fold b0. rewrite N.eqb_refl. rewrite EM. fold meb. fold cn1.
+    rewrite ET. rewrite Hmi. reflexivity. }
+  rewrite EREC. assert (0 <? mi = true) as -> by (apply N.ltb_lt; lia).
+  set (w := wrec ++ [WPut (KMaxIndex n) (VMax mi)]).
+  exists (cs_set_max_index (cupd c n cn') n mi), w. split; [reflexivity|].
+  (* the batch of the last group is cached *)
+  assert (Hcb : exists lbn, c_batch cn' = Some lbn /\ lbn <> [] /\ gid lbn = lastid /\
+                  ((lbn = meb /\ lastid = b0) \/ (In lbn t))).
+  { assert (In (last es e0) (concat (g1 :: t))) as HL by (rewrite GC; apply good_last_in; auto).
+    destruct (in_concat_group _ _ HL) as (gl & GI & GX).
+    destruct GI as [<-|GI].
+    - assert (lastid = b0) as E by (unfold lastid; now apply G1u).
+      exists meb. split; [|split; [|split]].
+      + rewrite S4; [unfold cn1; rewrite E, N.eqb_refl; reflexivity|].
+        intros gk HI. destruct (BFt gk HI). lia.
+      + unfold meb. destruct P; [auto | discriminate].
+      + unfold gid, meb. destruct P as [|p P'].
+        * cbn [app]. fold (gid g1). rewrite (uniform_gid _ _ G1n G1u). lia.
+        * cbn [app hd]. destruct (PX p (or_introl eq_refl)) as (A & _). rewrite A. lia.
+      + left. auto.
+    - assert (gid gl = lastid) as E.
+      { pose proof (inc_groups_nonempty _ _ _ GT GI) as Gn.
+        assert (uniform_id gl (gid gl)) as GU.
+        { clear - GT GI. revert GT GI. generalize b0. induction t as [|h t' IH]; intros lo GT GI; [contradiction|].
+          destruct GT as (A & B & C & D). destruct GI as [<-|GI]; eauto. }
+        symmetry. unfold lastid. now apply GU. }
+      exists gl. split; [now apply S5|]. split; [eapply inc_groups_nonempty; eauto|]. split; [exact E | now right]. }
+  destruct Hcb as (lbn & CB1 & CB2 & CB3 & CB4).
+  (* what the batch writes *)
+  assert (LWrec : forall k, wb_last w k = match (if key_eqb k (KMaxIndex n) then Some (Some (VMax mi)) else None) with
+                                         | Some r => Some r | None => wb_last wrec k end).
+  { intros k. unfold w. rewrite wb_last_app. cbn [wb_last wkey]. reflexivity. }
+  assert (K1 : gapply w g (KMaxIndex n) = Some (VMax mi)).
+  { unfold gapply. rewrite LWrec, key_eqb_refl. reflexivity. }
+  assert (Krec : forall k, k <> KMaxIndex n -> gapply w g k = match wb_last wrec k with Some r => r | None => g k end).
+  { intros k Hk. unfold gapply. rewrite LWrec, key_eqb_neq by auto. reflexivity. }
+  assert (K2 : gapply w g (KBatch n b0) = Some (VBatch (compact_if_many meb))).
+  { rewrite Krec by (intros X; ktags; inversion X). unfold wrec. cbn [wb_last].
+    rewrite (proj2 (wb_last_bputs n t b0 (KBatch n b0) GT)).
+    - unfold put0. cbn [wkey]. now rewrite key_eqb_refl.
+    - intros gk HI X. apply KBatch_inj in X. destruct (BFt gk HI). lia. }
+  assert (K3 : forall gk, In gk t -> gapply w g (KBatch n (gid gk)) = Some (VBatch (compact_if_many gk))).
+  { intros gk HI. rewrite Krec by (intros X; ktags; inversion X). unfold wrec. cbn [wb_last].
+    now rewrite (proj1 (wb_last_bputs n t b0 _ GT) gk HI eq_refl). }
+  assert (K4 : forall k, k <> KMaxIndex n -> k <> KBatch n b0 -> (forall gk, In gk t -> k <> KBatch n (gid gk)) ->
+               gapply w g k = g k).
+  { intros k A B C. rewrite Krec by auto. unfold wrec. cbn [wb_last].
+    rewrite (proj2 (wb_last_bputs n t b0 k GT) C). unfold put0. cbn [wkey]. now rewrite key_eqb_neq. }
+  assert (K5 : forall k, (forall b, k <> KBatch n b) -> k <> KMaxIndex n -> gapply w g k = g k).
+  { intros k A B. apply K4; auto. }
+  assert (Hcn : cs_set_max_index (cupd c n cn') n mi n = mkC (c_state cn') (Some mi) (c_snap cn') (c_batch cn')).
+  { unfold cs_set_max_index. rewrite !cupd_same. reflexivity. }
+  (* goodness of what is stored *)
+  assert (HGh : good_from (i0 - 1) (hterm nd) es) by (eapply good_retarget; eauto; unfold hterm; lia).
+  assert (HMT : N.max 1 (n_mterm nd) <= hterm nd /\ forall x, In x (n_ents nd) -> e_term x <= hterm nd).
+  { destruct (good_le_last_term _ _ _ (bc_good _ _ _ _ HB)) as [I1 I2]. unfold hterm, n_last_term.
+    destruct (n_ents nd) as [|z l] eqn:EN.
+    - cbn [last_term] in *. split; [lia | intros x []].
+    - rewrite (last_term_default (z :: l) (n_mterm nd) (N.max 1 (n_mterm nd))) by discriminate.
+      split; [lia|]. intros x HI. pose proof (I2 x HI). lia. }
+  destruct HMT as [HMT1 HMT2].
+  assert (GoodMeb : good_from 0 1 meb).
+  { unfold meb. eapply (good_from_app P g1 0 1 (i0 - 1) (hterm nd)); eauto; try (unfold hterm; lia).
+    - intros x HI. destruct (PX x HI) as (A & B & C & D). lia.
+    - rewrite <- BF1. apply good_from_filter. exact HGh. }
+  assert (GoodGk : forall gk, In gk t -> good_from 0 1 gk).
+  { intros gk HI. destruct (BFt gk HI) as [E _]. rewrite <- E. apply good_from_filter.
+    exact HG1. }
+  assert (HT' : hterm nd' = last_term (e_term e0) es0 /\ hterm nd <= hterm nd').
+  { assert (LT1' : n_last_term nd' = last_term (e_term e0) es0) by exact LT1.
+    unfold hterm. rewrite LT1'. split; lia. }
+  destruct HT' as [HT1 HT2].
+  split; [|split; [|split; [|split; [|split]]]].
+  - (* format independent part *)
+    rewrite Hcn. destruct Sc as [Sc1 Sc2].
+    pose proof (n_last_strip nd') as L2. pose proof (n_last_strip nd) as L1.
+    destruct H as [G1 G2 G3 G4 G5 G6 G7 G8 G9 G10 G11].
+    constructor; unfold strip in *; cbn [n_marker n_ents n_st n_ss n_mterm c_state c_max c_snap] in *;
+      unfold n_ssidx in *; cbn [n_ss] in *;
+      change (n_ss nd') with (n_ss nd) in *; change (n_st nd') with (n_st nd) in *.
+    + exact I.
+    + intros e [].
+    + left. rewrite K1, L2, Hlast'. reflexivity.
+    + intros v X. inversion X. rewrite L2, Hlast'. reflexivity.
+    + rewrite K5 by (intros; intro X; ktags; inversion X). exact G5.
+    + rewrite Sc1. exact G6.
+    + intros i Hi. rewrite K5 by (intros; intro X; ktags; inversion X). apply G7. exact Hi.
+    + destruct (n_ss nd).
+      * rewrite K5 by (intros; intro X; ktags; inversion X). exact G8.
+      * intros i. rewrite K5 by (intros; intro X; ktags; inversion X). apply G8.
+    + rewrite Sc2. exact G9.
+    + exact G10.
+    + rewrite L2, Hlast'. exact Hmib.
+  - (* the batches *)
+    rewrite Hcn. cbn [c_batch]. rewrite CB1.
+    assert (Hents' : n_ents nd' = below i0 (n_ents nd) ++ es) by reflexivity.
+    assert (Hmk' : n_marker nd' = n_marker nd) by reflexivity.
+    (* which stored batch a batch id has after the save *)
+    assert (Hcase : forall b, b = b0 \/ (exists gk, In gk t /\ gid gk = b) \/
+                              (b <> b0 /\ forall gk, In gk t -> gid gk <> b)).
+    { intros b. destruct (N.eq_dec b b0); [now left|]. right.
+      destruct (existsb (fun gk => gid gk =? b) t) eqn:E.
+      - left. apply existsb_exists in E. destruct E as (gk & A & B). apply N.eqb_eq in B. eauto.
+      - right. split; auto. intros gk HI X. apply not_true_iff_false in E. apply E.
+        apply existsb_exists. exists gk. split; auto. now apply N.eqb_eq. }
+    assert (InLogEs : forall x, In x es -> in_log nd' x = true).
+    { intros x HI. apply in_log_range. rewrite Hmk', Hlast'. pose proof (Hes x HI). lia. }
+    constructor.
+    + (* bc_good *)
+      rewrite Hents'. cbn [n_marker n_mterm nd'].
+      eapply (good_from_app _ es _ _ (i0 - 1) (hterm nd)); eauto; try lia.
+      * apply good_from_filter. exact (bc_good _ _ _ _ HB).
+      * intros x HI. destruct (Hbelow x HI) as [A B]. split; [lia | auto].
+    + (* bc_typed *)
+      intros b v X. destruct (Hcase b) as [->|[(gk & GI & <-)|(A & B)]].
+      * rewrite K2 in X. inversion X. eauto.
+      * rewrite (K3 gk GI) in X. inversion X. eauto.
+      * rewrite K4 in X; try (intros Y; ktags; inversion Y; fail).
+        -- exact (bc_typed _ _ _ _ HB b v X).
+        -- intros Y. apply KBatch_inj in Y. contradiction.
+        -- intros gk HI Y. apply KBatch_inj in Y. exact (B gk HI (eq_sym Y)).
+    + (* bc_all *)
+      intros b raw X. destruct (Hcase b) as [->|[(gk & GI & <-)|(A & B)]].
+      * rewrite K2 in X. inversion X; subst raw. clear X.
+        rewrite (batch_compact_restore_id_proved meb 0 GoodMeb).
+        split; [apply compact_nonempty; unfold meb; destruct P; [auto | discriminate]|].
+        split; [exact GoodMeb|]. split.
+        -- intros x HI. unfold meb in HI. apply in_app_or in HI. destruct HI as [HI|HI].
+           ++ destruct (PX x HI) as (A & B & C & D). split; [exact A|]. split; [lia | exact D].
+           ++ split; [now apply G1u|]. pose proof (Hes x (Hg1 x HI)). split; [|lia].
+              rewrite HT1. apply LT3. now apply Hg1.
+        -- unfold meb. rewrite filter_app, Hents', bfilter_app. f_equal.
+           ++ rewrite <- PF. apply filter_ext_in. intros x HI. destruct (PX x HI) as (A & B & C & D).
+              unfold in_log. rewrite Hmk', Hlast'.
+              assert (e_index x <=? mi = true) as -> by (apply N.leb_le; lia). now rewrite andb_true_r.
+           ++ rewrite BF1. apply filter_all. intros x HI. apply InLogEs. now apply Hg1.
+      * destruct (BFt gk GI) as [E L]. rewrite (K3 gk GI) in X. inversion X; subst raw. clear X.
+        rewrite (batch_compact_restore_id_proved gk 0 (GoodGk gk GI)).
+        split; [apply compact_nonempty; eapply inc_groups_nonempty; eauto|].
+        split; [exact (GoodGk gk GI)|]. split.
+        -- intros x HI. pose proof (Hgk gk x GI HI) as HX. pose proof (Hes x HX). split.
+           ++ rewrite <- E in HI. apply bfilter_in in HI. tauto.
+           ++ split; [rewrite HT1; now apply LT3 | lia].
+        -- rewrite Hents', bfilter_app, E. rewrite bfilter_nil_iff.
+           ++ cbn [app]. apply filter_all. intros x HI. apply InLogEs. eapply Hgk; eauto.
+           ++ intros x HI. destruct (Hbelow x HI) as [_ HL]. unfold b0 in L.
+              pose proof (batch_id_mono (e_index x) i0 ltac:(lia)). lia.
+      * assert (Xg : g (KBatch n b) = Some (VBatch raw)).
+        { rewrite K4 in X; auto; try (intros Y; ktags; inversion Y; fail).
+          - intros Y. apply KBatch_inj in Y. contradiction.
+          - intros gk HI Y. apply KBatch_inj in Y. exact (B gk HI (eq_sym Y)). }
+        destruct (bc_all _ _ _ _ HB b raw Xg) as (R1 & R2 & R3 & R4).
+        split; [exact R1|]. split; [exact R2|]. split.
+        -- intros x HI. destruct (R3 x HI) as (A1 & A2 & A3). split; [exact A1|]. split; [lia | exact A3].
+        -- rewrite Hents', bfilter_app, (BFn b A B), app_nil_r.
+           destruct (N.lt_ge_cases b b0) as [Lb|Lb].
+           ++ (* an older batch: nothing changes *)
+              rewrite (filter_ext_in (in_log nd') (in_log nd)).
+              ** rewrite R4. unfold bfilter, below. rewrite filter_comm. symmetry. apply filter_all.
+                 intros x HI. apply filter_In in HI. destruct HI as [_ HI]. apply N.eqb_eq in HI.
+                 apply N.ltb_lt. apply batch_id_lt. unfold b0 in Lb. lia.
+              ** intros x HI. destruct (R3 x HI) as (A1 & _).
+                 assert (e_index x < i0) by (apply batch_id_lt; unfold b0 in Lb; lia).
+                 unfold in_log. rewrite Hmk', Hlast'.
+                 assert (e_index x <=? mi = true) as -> by (apply N.leb_le; lia).
+                 assert (e_index x <=? n_last nd = true) as -> by (apply N.leb_le; lia). reflexivity.
+           ++ (* a stale batch above the new end *)
+              rewrite bfilter_nil_iff.
+              ** apply filter_nil. intros x HI. destruct (R3 x HI) as (A1 & _).
+                 destruct (in_log nd' x) eqn:IL; [|reflexivity]. exfalso.
+                 apply in_log_range in IL. rewrite Hmk', Hlast' in IL.
+                 (* the index b*48 would be one of the new entries *)
+                 assert (i0 < b * bsz <= mi) as Hb.
+                 { unfold b0 in *. bid. lia. }
+                 destruct (contig_nth _ _ (b * bsz) HCe) as (y & Y1 & Y2); [subst mi; lia|].
+                 assert (batch_id (e_index y) = b) as Yb by (rewrite Y2; bid; lia).
+                 rewrite <- GC in Y1. destruct (in_concat_group _ _ Y1) as (gy & GI & GX).
+                 destruct GI as [<-|GI]; [rewrite (G1u y GX) in Yb; lia|].
+                 apply (B gy GI). destruct (BFt gy GI) as [E _]. rewrite <- E in GX.
+                 apply bfilter_in in GX. destruct GX as [_ GX]. lia.
+              ** intros x HI. destruct (Hbelow x HI) as [_ HL].
+                 pose proof (batch_id_mono (e_index x) i0 ltac:(lia)). unfold b0 in *. lia.
+    + (* bc_exists *)
+      intros e HI. rewrite Hents' in HI. apply in_app_or in HI.
+      destruct (Hcase (batch_id (e_index e))) as [E|[(gk & GI & E)|(A & B)]].
+      * rewrite E, K2. eauto.
+      * rewrite <- E, (K3 gk GI). eauto.
+      * destruct HI as [HI|HI].
+        -- destruct (Hbelow e HI) as [HE _]. destruct (bc_exists _ _ _ _ HB e HE) as (raw & X).
+           exists raw. rewrite K4; auto; try (intros Y; ktags; inversion Y; fail).
+           ++ intros Y. apply KBatch_inj in Y. contradiction.
+           ++ intros gk GI Y. apply KBatch_inj in Y. exact (B gk GI (eq_sym Y)).
+        -- exfalso. rewrite <- GC in HI. destruct (in_concat_group _ _ HI) as (gy & GI & GX).
+           destruct GI as [<-|GI]; [apply A; now apply G1u|].
+           apply (B gy GI). destruct (BFt gy GI) as [E _]. rewrite <- E in GX.
+           apply bfilter_in in GX. destruct GX as [_ GX]. now symmetry.
+    + (* bc_cache *)
+      intros lb Hlb. inversion Hlb; subst lb. clear Hlb. split; [exact CB2|]. split.
+      * intros e HI. rewrite Hents' in HI. rewrite CB3, Hlastid. apply batch_id_mono.
+        apply in_app_or in HI. destruct HI as [HI|HI].
+        -- destruct (Hbelow e HI). lia.
+        -- pose proof (Hes e HI). lia.
+      * intros _. destruct CB4 as [[-> E]|GI].
+        -- exists (compact_if_many meb). rewrite CB3, E, K2. split; [reflexivity|].
+           apply (batch_compact_restore_id_proved meb 0 GoodMeb).
+        -- exists (compact_if_many lbn). rewrite (K3 lbn GI). split; [reflexivity|].
+           apply (batch_compact_restore_id_proved lbn 0 (GoodGk lbn GI)).
+  - (* contig *)
+    cbn [n_ents]. apply contig_app; auto. rewrite CL.
+    replace (n_marker nd + 1 + (i0 - (n_marker nd + 1))) with i0 by lia. exact HCe.
+  - intros n' Hn'. unfold cs_set_max_index. rewrite !cupd_other by auto. reflexivity.
+  - intros o HI. unfold w, wrec in HI. apply in_app_or in HI. destruct HI as [[HI|HI]|[HI|[]]].
+    + rewrite <- HI. unfold put0, key_node; cbn; apply nid_eta.
+    + apply in_map_iff in HI. destruct HI as (x & HX & _). rewrite <- HX. unfold bput, key_node; cbn; apply nid_eta.
+    + rewrite <- HI. unfold key_node; cbn; apply nid_eta.
+  - intros k v HI. unfold w, wrec in HI. apply in_app_or in HI. destruct HI as [[HI|HI]|[HI|[]]].
+    + unfold put0 in HI. inversion HI. unfold wt; ktags; cbn. repeat split; intros Y; discriminate.
+    + apply in_map_iff in HI. destruct HI as (x & X & _). unfold bput in X. inversion X.
+      unfold wt; ktags; cbn. repeat split; intros Y; discriminate.
+    + inversion HI. unfold wt; ktags; cbn. repeat split; intros Y; try discriminate. eauto.
+Qed.
